@@ -118,12 +118,15 @@ pub struct SimScenario {
     /// which an independent btor2 reader produced from the same text)
     pub btor2_text: Option<String>,
     pub source: String,
+    /// construct the simulator with `Interpreter::new_with_trace` (prints every signal before
+    /// each step; the values it computes must be the same)
+    pub trace: bool,
 }
 
 impl SimScenario {
     fn to_json(&self) -> Value {
         json!({"workload": {"kind": "ops", "system": sys_to_json(&self.sys), "source": self.source,
-               "original_btor2": self.btor2_text,
+               "original_btor2": self.btor2_text, "constructor": if self.trace { "new_with_trace" } else { "new" },
                "ops": self.ops.iter().map(op_to_json).collect::<Vec<_>>()}})
     }
     fn from_json(v: &Value) -> Result<Self, String> {
@@ -136,6 +139,7 @@ impl SimScenario {
             ops,
             btor2_text: v["workload"]["original_btor2"].as_str().map(|s| s.to_string()),
             source: v["workload"]["source"].as_str().unwrap_or("generated").to_string(),
+            trace: v["workload"]["constructor"].as_str() == Some("new_with_trace"),
         })
     }
 }
@@ -230,7 +234,7 @@ fn judge(scn: &SimScenario, acc: &mut Acc) -> Option<Violation> {
                 .all(|x| !ctx[*x].is_symbol() || sys_symbols.contains(x))
         });
         let inner = collect_subexprs(&ctx, &psys.get_all_exprs());
-        let mut sim = Interpreter::new(&ctx, &psys);
+        let mut sim = if scn.trace { Interpreter::new_with_trace(&ctx, &psys) } else { Interpreter::new(&ctx, &psys) };
         let mut model = Model {
             sys,
             states: sys.states.iter().map(|s| zero_of(s.ty)).collect(),
@@ -677,7 +681,9 @@ impl Property for C07 {
             ops: gen_ops(&mut orng, n),
             btor2_text,
             source,
+            trace: !from_shipped && n <= 16 && orng.chance(1, 6),
         };
+        acc.count("probe.simulator_built_with_trace", scn.trace as u64);
         acc.evaluations += 1;
         acc.sim_steps += scn.ops.len() as u64;
         ngram_hashes(&scn.ops, shape_hash(&scn.sys), &mut acc.distinct);
